@@ -436,7 +436,7 @@ def oracle(line, ans, rng=None, meets_ok=True):
                 T = []
                 for s, m in S:
                     a1 = s[y]; b1 = s[zz] if kind == "v" else zz
-                    v = a1 + b1 if f == "add" else a1 - b1 if f == "sub" else a1 * b1 if f == "mul" else None
+                    v = a1 + b1 if f == "add" else a1 - b1 if f == "sub" else (a1 * b1 if (a1.bit_length() + b1.bit_length() <= 4096) else None) if f == "mul" else None
                     if v is not None:
                         T.append((upd(s, x, v), m))
                 S = T
